@@ -12,6 +12,8 @@ For every function, in source order (after gcc -E):
     (k counts the assignments to that lhs inside the function; compound assignments are expanded to  lhs op (e));
   * each  if (c)  whose condition parses becomes  Definition <fn>_q_if_<k> (...) : Z := <term>  (non-zero = taken);
   * the list of `for (...)` headers becomes  Definition <fn>_q_loops : list string.
+spec["call_funcs"] = [[file, function, [callee, ...]], ...]: Definition <fn>_q_calls : list string, the calls the
+function makes to the listed callees, in source order, with their (whitespace-normalised) argument text.
 Sub-expressions are normalised first:  a[i] -> a_i,  a[ndims - 1] -> a_last,  a[j + 1] -> a_next,  p->f -> p_f,
 d[i].f -> f,  d[j + 1].f -> f_next,  d[ndims - 1].f -> f_last,  *p -> p.  Casts to int32/uint8... keep their
 wrap-around meaning (H.P).  Anything that does not parse is listed in a comment, not silently dropped."""
@@ -126,4 +128,20 @@ def emit(repo, spec, H):
             for sk in skipped:
                 lines.append("(* not translated: %s *)" % sk)
             lines.append("")
+    # ordered list of the calls a function makes to the named callees, with their normalised argument text
+    for f, fn, callees in spec.get("call_funcs", []):
+        txt = H.src(repo, f)
+        body = H.func_body(txt, fn)
+        calls = []
+        for m in re.finditer(r"\b(%s)\s*\(" % "|".join(re.escape(c) for c in callees), body):
+            j, depth = m.end(), 1
+            while depth and j < len(body):
+                depth += body[j] == "("
+                depth -= body[j] == ")"
+                j += 1
+            args = " ".join(body[m.end():j - 1].split())
+            calls.append("%s(%s)" % (m.group(1), args))
+        lines.append("(* %s: calls of %s to %s, in source order *)" % (f, fn, ", ".join(callees)))
+        lines.append("Definition %s_q_calls : list string := [%s]." % (fn, ";\n  ".join('"%s"%%string' % c.replace('"', "'") for c in calls)))
+        lines.append("")
     return lines
